@@ -157,6 +157,8 @@ func vh_C10_manager_roundtrip() {
 	verifAssume(m.Save(rw, vReq(), s) == nil)
 	set := verifSetCookies(rw.Header())
 	verifAssume(len(set) == 1)
+	// the server-side entry is stored with the configured lifetime, whatever the session's age
+	verifAssert("C09.manager.store-ttl-is-cookie-expire-whatever-the-age", kv.saveCalls == 1 && kv.savedExp == opts.Expire)
 	kv.reliable = false
 	expireSec := int(opts.Expire / time.Second)
 	if (age >= expireSec-2 && age <= expireSec+2) || (age >= -302 && age <= -298) {
